@@ -861,6 +861,7 @@ func paramRooted(l Lin) bool {
 		case strings.HasPrefix(a, "wire(bytes(P") && strings.Contains(a, ",e0),"):
 		case strings.HasPrefix(a, "wire(P"):
 		case strings.HasPrefix(a, "len(P"):
+		case strings.HasPrefix(a, "len(fld:P") && strings.Count(a, ".") == 1:
 		case len(a) >= 2 && a[0] == 'P' && a[1] >= '0' && a[1] <= '9':
 		default:
 			return false
